@@ -115,10 +115,26 @@ def p_reader(file_info, tag=None):
     return data
 
 
+WFAULT = [None]       # (serial, partial): the writer fails once for this data set
+
+
+class _EndHistory(Exception):
+    """A fault was injected: the verdict is in, the model is void from here."""
+
+
 def p_writer(data, file_info, wtag=None):
     if wtag is not None:
         data = dict(data, write_tag=wtag)
     _yield("writer:in")
+    wf = WFAULT[0]
+    if wf is not None and isinstance(data, dict) and data.get("serial") == wf[0]:
+        WFAULT[0] = None
+        PREEMPT["enospc_in_converting_write"] = \
+            PREEMPT.get("enospc_in_converting_write", 0) + 1
+        if wf[1]:
+            with open(file_info.path, "wb") as f:     # a torn target
+                f.write(pickle.dumps(data, protocol=4)[:7])
+        raise OSError(28, "injected ENOSPC in the handler's write")
     with open(file_info.path, "wb") as f:
         pickle.dump(data, f, protocol=4)
     # other tasks may run between writing the (temporary) file and the
@@ -210,6 +226,14 @@ def gen_workload(tape):
                 # "move" onto the fileset's own template with convert set:
                 # every file keeps its name and is rewritten in place
                 o["inplace"] = op == "move" and tape.flag("inplace", 1, 8)
+                # the handler's write fails (disk full) for one of the files
+                # while move(convert=...) is under way: nothing may be lost
+                o["write_fault"] = tape.choice(12, "wfault") \
+                    if o["convert"] and tape.flag("wf", 1, 5) else None
+                o["wf_partial"] = tape.flag("wf_partial", 1, 2)
+                # afterwards the caller stores new data for one of the moved
+                # periods in the source fileset and reads it back
+                o["rewrite_after"] = op == "move" and tape.flag("rewrite_after", 1, 3)
         elif op == "read":
             o["fs"] = tape.choice(3, "which_fs")
             o["idx"] = tape.choice(12, "ridx")
@@ -235,6 +259,28 @@ class MFile:
     def __init__(self, path, fs, cov, sat, payload, sha, vk):
         self.path, self.fs, self.cov, self.sat = path, fs, cov, sat
         self.payload, self.sha, self.verbatim_kind = payload, sha, vk
+
+
+def _unpickle_any(path):
+    """Read a pickle payload with the standard library only (by suffix)."""
+    import bz2
+    import gzip
+    import lzma
+    import zipfile
+    if path.endswith(".gz"):
+        with gzip.open(path, "rb") as f:
+            return pickle.load(f)
+    if path.endswith(".bz2"):
+        with bz2.open(path, "rb") as f:
+            return pickle.load(f)
+    if path.endswith(".xz"):
+        with lzma.open(path, "rb") as f:
+            return pickle.load(f)
+    if path.endswith(".zip"):
+        with zipfile.ZipFile(path) as z:
+            return pickle.loads(z.read(z.namelist()[0]))
+    with open(path, "rb") as f:
+        return pickle.load(f)
 
 
 def _sha(path):
@@ -703,9 +749,17 @@ class Run:
             target_ms = None
             target = dst.template
         conv_arg = converter if convert == "callable" else bool(convert)
+        faulted = None
+        if convert and ms.kind.startswith("pickle") and plan and \
+                o.get("write_fault") is not None:
+            faulted = list(plan.values())[o["write_fault"] % len(plan)]
+            WFAULT[0] = (faulted.payload.get("serial"), o["wf_partial"])
         try:
             ret = ms.obj.move(target, convert=conv_arg, copy=copy, **kw, **extra)
         except Exception as e:  # noqa
+            if faulted is not None and WFAULT[0] is None:
+                self.after_write_fault(kind, plan, copy, convert, tkind, target_ms or dst)
+            WFAULT[0] = None
             if not chosen and type(e).__name__ == "NoFilesError":
                 if target_ms is not None:
                     self.sets.pop()
@@ -715,6 +769,10 @@ class Run:
                                 f"{type(e).__name__}: {e}"[:300]))
             self._resync()
             return
+        if faulted is not None and WFAULT[0] is None:
+            # the failure did not reach the caller: still nothing may be lost
+            self.after_write_fault(kind, plan, copy, convert, tkind, target_ms or dst)
+        WFAULT[0] = None
         self.log("op", i, kind, len(chosen), "convert", convert)
         if target_ms is None:
             target_ms = dst
@@ -749,6 +807,59 @@ class Run:
                 if mf.sha is None:
                     mf.sha = _sha(np_)
                 self.check_content(mf, kind)
+        if o.get("rewrite_after") and not copy and plan:
+            old = list(plan.values())[o["ext"] % len(plan)]
+            if old.path not in self.files:
+                self.sim.probe("moved_period_written_again")
+                payload = _payload(ms.kind, 500 + i, _T["xr"])
+                stored = payload
+                if ms.kind.startswith("pickle") and w["write_args"]:
+                    stored = dict(payload, write_tag="WA")
+                try:
+                    name = ms.obj.get_filename((old.cov[0], old.cov[1]),
+                                               fill={"sat": old.sat})
+                    ms.obj.write(payload, name)
+                except Exception as e:  # noqa
+                    self.V.append(_viol(f"C11/rewrite/exception/{type(e).__name__}",
+                                        f"{e}"[:300]))
+                    raise _EndHistory()
+                if os.path.exists(old.path):
+                    self.files[old.path] = MFile(old.path, ms.idx, old.cov, old.sat,
+                                                 stored, _sha(old.path), None)
+                    self.state_changes += 1
+                self.compare("rewrite")
+                if old.path in self.files:
+                    self.check_content(self.files[old.path], "rewrite")
+
+    def after_write_fault(self, kind, plan, copy, convert, tkind, target_ms):
+        """The handler's write failed for one file of a converting move/copy.
+        Conservation: each selected data set is still readable somewhere - the
+        original is intact, or the complete converted copy exists."""
+        self.sim.probe("write_fault_during_convert")
+        for np_, f in plan.items():
+            orig_ok = os.path.exists(f.path) and (f.sha is None or _sha(f.path) == f.sha)
+            if orig_ok:
+                continue
+            ok = False
+            if os.path.exists(np_):
+                try:
+                    got = _unpickle_any(np_)          # the harness's own reading
+                    want = self.expected_read(f)
+                    if convert == "callable":
+                        want = dict(want, converted=True)
+                    if isinstance(got, dict) and isinstance(want, dict):
+                        ok = all(got.get(k) == v for k, v in want.items()
+                                 if k in ("serial", "blob"))
+                except Exception:  # noqa
+                    ok = False
+            if not ok:
+                self.V.append(_viol(
+                    f"C11/{kind}/data-lost-after-write-error",
+                    f"{kind}(convert=...) with a failing write: "
+                    f"{_r(self, f.path)} is gone and {_r(self, np_)} does not "
+                    f"hold its data"))
+                break
+        raise _EndHistory()
 
     def _resync(self):
         data = os.path.join(self.root, "data")
@@ -798,6 +909,7 @@ def run_one(tape, only=None):
     SimPoolBase.sim, SimPoolBase.registry = sim, []
     SIM[0] = sim
     PREEMPT.clear()
+    WFAULT[0] = None
     _FS_HOOK[0] = _yield
     outcome = {}
     import tempfile
@@ -809,6 +921,8 @@ def run_one(tape, only=None):
             for i, o in enumerate(w["ops"]):
                 try:
                     run.op(i, o)
+                except _EndHistory:
+                    return
                 except Exception as e:  # noqa: typhon raised in an operation
                     # of a legal history - a verdict, and the model is void
                     # from here on
